@@ -40,6 +40,18 @@ type KnownError struct {
 func (k *KnownError) Error() string { return k.Recogniser + ": " + k.Err.Error() }
 func (k *KnownError) Unwrap() error { return k.Err }
 
+// InconclusiveError marks a run that could not decide (watchdog expiry,
+// unavailable resource). It is never reported as a violation: the test fails
+// without a VIOLATION line, which the driver maps to exit 2.
+type InconclusiveError struct{ Msg string }
+
+func (e *InconclusiveError) Error() string { return "INCONCLUSIVE: " + e.Msg }
+
+// Inconclusive builds an InconclusiveError.
+func Inconclusive(format string, args ...any) error {
+	return &InconclusiveError{Msg: fmt.Sprintf(format, args...)}
+}
+
 // Known wraps err as matching recogniser.
 func Known(recogniser string, format string, args ...any) error {
 	return &KnownError{Recogniser: recogniser, Err: fmt.Errorf(format, args...)}
@@ -306,6 +318,11 @@ func evaluate[C any](tt *testing.T, s Spec[C], st *stats, c C, count bool) (erro
 		panic("case not serialisable: " + jerr.Error())
 	}
 	info, err := safeCheck(tt, s, c)
+	var ie *InconclusiveError
+	if err != nil && errors.As(err, &ie) {
+		fmt.Printf("HARNESS-INCONCLUSIVE %s/%s: %s\n", s.Prop, s.Name, ie.Msg)
+		tt.Fatalf("%v", err)
+	}
 	var ke *KnownError
 	if err != nil && errors.As(err, &ke) && IsOpen(ke.Recogniser) {
 		st.mu.Lock()
